@@ -1156,7 +1156,9 @@ def run_property(prop, pid, tier, seed, replay=None):
     t0 = time.time()
     log = core.log
     coq = core.coq_check(pid, thorough=(tier == "thorough"))
+    log("[%s] coq_check %.1fs" % (pid, time.time() - t0))
     zmodel, merr = core.model_build(pid, prop.RUN_MODULE)
+    log("[%s] model_build %.1fs" % (pid, time.time() - t0))
     kf = core.known_findings(pid)
     known_classes = {e["class"] for e in kf if e.get("status") == "known"}
     problems, tool_errors = [], []
@@ -1194,6 +1196,7 @@ def run_property(prop, pid, tier, seed, replay=None):
     last = None
     for rand, cases, fixed in batches:
         binary, berr, descs = build_batch(rand)
+        log("[%s] cargo build of the batch done at %.1fs" % (pid, time.time() - t0))
         programs += len(descs)
         if binary is None:
             build_failed = True
@@ -1208,6 +1211,7 @@ def run_property(prop, pid, tier, seed, replay=None):
         if any(x.startswith("BADCASE") for x in model_out) or any(x.startswith("BADCASE") for x in impl_out):
             bad = [c for c, x, y in zip(cases, model_out, impl_out) if x.startswith("BADCASE") or y.startswith("BADCASE")][:2]
             tool_errors.append("case syntax rejected: %r" % [b[:300] for b in bad])
+        log("[%s] %d cases run at %.1fs" % (pid, len(cases), time.time() - t0))
         d, v, k, nops = evaluate(cases, model_out, impl_out, known_classes)
         if d or v:
             # schedule-dependent hiccups (a reply overtaken, a slow start): re-run the suspicious cases once
